@@ -19,7 +19,7 @@ const f3aWitnessHex = "0061736d0100000001058080808001"
 func probeVariant() {
 	c := &Case{Name: "F3a-probe", Stream: "probe", Feat: "v2", Hex: f3aWitnessHex, Mode: "decode"}
 	c.bin = mustHex(c.Hex)
-	o := pool.Alone(c.req("decode"), aloneDeadline)
+	o := pool.Alone(c.req("decode"), deadlineAlone(len(c.bin)))
 	switch {
 	case o.Crash == "exit" && crashClass(o.Stderr) == "out-of-memory":
 		variantAsIs = true
